@@ -204,6 +204,11 @@ SOLO_COMPOSITES = [
     # several properties qualify as the internal tag (constant, required, pairwise distinct): the choice must be a function of the schema
     L("int_tag_two_candidates", {"oneOf": [obj({"kind": {"type": "string", "enum": ["round"]}, "shape": {"type": "string", "enum": ["circle"]}, "radius": INT}, ["kind", "shape", "radius"]),
                                            obj({"kind": {"type": "string", "enum": ["angular"]}, "shape": {"type": "string", "enum": ["square"]}, "side": INT}, ["kind", "shape", "side"])]}, enf=True),
+    # the same with the tag written as `const` (outside tag inference typify drops `const`, so a failed inference leaves a plain String)
+    L("int_tag_two_candidates_const", {"oneOf": [obj({"kind": {"type": "string", "const": "circle"}, "outline": {"type": "string", "enum": ["round"]}, "radius": INT}, ["kind", "outline", "radius"]),
+                                                 obj({"kind": {"type": "string", "const": "square"}, "outline": {"type": "string", "enum": ["angular"]}, "side": INT}, ["kind", "outline", "side"])]}, enf=True),
+    L("int_tag_typed_const", {"oneOf": [obj({"kind": {"type": "string", "const": "circle"}, "radius": INT}, ["kind", "radius"]),
+                                  obj({"kind": {"type": "string", "const": "square"}, "side": INT}, ["kind", "side"])]}, enf=True),
     L("int_tag_three_candidates", {"oneOf": [obj({"zeta": {"type": "string", "enum": ["z1"]}, "alpha": {"type": "string", "enum": ["a1"]}, "mid": {"type": "string", "enum": ["m1"]}}, ["zeta", "alpha", "mid"]),
                                              obj({"zeta": {"type": "string", "enum": ["z2"]}, "alpha": {"type": "string", "enum": ["a2"]}, "mid": {"type": "string", "enum": ["m2"]}, "v": INT},
                                                  ["zeta", "alpha", "mid"])]}, enf=True),
@@ -306,6 +311,18 @@ SOLO_COMPOSITES = [
     L("str_unkfmt_max2", {"type": "string", "format": "hostname", "maxLength": 2}, enf=True, strish=True),
     L("map_minprops", {"type": "object", "additionalProperties": INT, "minProperties": 1}, enf=False),
     L("struct_bool_props", obj({"a": True, "b": False, "c": INT}, ["a"]), enf=False),
+    # struct variants with member defaults that FOLLOW variants of other kinds (unit, newtype, tuple): schemars' output for
+    # enum Job { Idle, Num(i64), Run { cmd, #[serde(default = ..)] retries, #[serde(default = ..)] verbose } }
+    L("ext_mixed_then_struct_dflt", {"oneOf": [
+        {"type": "string", "enum": ["Idle"]},
+        {"type": "object", "properties": {"Num": INT}, "required": ["Num"], "additionalProperties": False},
+        {"type": "object", "properties": {"Run": obj({"cmd": STR, "retries": {"type": "integer", "format": "uint32", "minimum": 0, "default": 3},
+                                                      "verbose": {"type": "boolean", "default": True}, "nice": {"type": "integer", "format": "int8", "default": -5}}, ["cmd"])},
+         "required": ["Run"], "additionalProperties": False}]}, enf=True),
+    L("int_unit_then_struct_dflt", {"oneOf": [
+        obj({"t": {"type": "string", "enum": ["idle"]}}, ["t"]),
+        obj({"t": {"type": "string", "enum": ["run"]}, "cmd": STR, "retries": {"type": "integer", "format": "uint32", "minimum": 0, "default": 3},
+             "verbose": {"type": "boolean", "default": True}}, ["t", "cmd"])]}, enf=True),
     # compound member types whose ELEMENTS are named generated types, with and without a default (the element's path must be written for
     # the scope it is used in: struct field, mod builder, mod defaults)
     L("tuple_named", {"type": "array", "items": [{"$ref": "#/definitions/XKind"}, {"$ref": "#/definitions/XObj"}], "minItems": 2, "maxItems": 2},
@@ -859,3 +876,14 @@ def order_pairs(tier):
                 out.append({"id": "order[%s,%s]@defs" % (a, b), "doc": ddoc, "target": "T", "ff": LEAF[a]["ff"] and LEAF[b]["ff"], "enf": False,
                             "strish": False, "shape": "order:%s,%s" % (a, b), "ctx": "order_defs"})
     return out
+
+
+def _no_duplicate_ids():
+    seen = set()
+    for x in LEAVES + SOLO_COMPOSITES:
+        if x["id"] in seen:
+            raise AssertionError("duplicate shape id " + x["id"])
+        seen.add(x["id"])
+
+
+_no_duplicate_ids()
